@@ -1,14 +1,29 @@
 /-
-  Properties/C02.lean — encoder output is the specification's encoding.
-  (Only property theorems live here; helper lemmas are in Proofs/.)
+  Properties/C02.lean — encoder output is byte-for-byte the specification's encoding.
+  Only the property theorems live here; lemmas are in Proofs/Varint.lean and Proofs/Encode.lean.
 -/
-import Proofs.Varint
+import Proofs.Encode
+
+open Binary
 
 /-- the Python bit-twiddling of `write_int`/`write_long` (`(n << 1) ^ (n >> 63)`, 7-bit loop) produces
     exactly the specification's zig-zag base-128 varint, for every int64 -/
 theorem c02_encodeLong_eq_spec (n : Int) (hlo : -(2^63) ≤ n) (hhi : n < 2^63) :
-    Binary.encodeLong n = WR.ok (Spec.encodeLong n) :=
+    encodeLong n = WR.ok (Spec.encodeLong n) :=
   VarintProofs.encodeLong_eq_spec n hlo hhi
 
+/-- **C02.** For every schema and every conforming datum (one whose normal form is defined), the
+    bytes `write_data` emits equal `Spec.encode` — the specification's encoding written independently
+    of the writer — for the union branches the writer selected. -/
+theorem c02_bytes (env : Env) (o : WOpts) (fuel : Nat) (s : Schema) (v nf : Val) (bs : Bytes)
+    (hw : writeData fuel env o s v = ⟨bs, none⟩)
+    (hn : Spec.normalize fuel env o s v = some nf) :
+    Spec.encode (EncodeProofs.writerPick env o) fuel env s v = some bs :=
+  EncodeProofs.writeData_eq_spec env o fuel s v nf bs hw hn
+
+/-- the two little-endian formulations agree (`struct.pack('<f'/'<d')` byte order) -/
+theorem c02_little_endian (n x : Nat) : Spec.leBytes n x = Py.toBytesLE n x := EncodeProofs.leBytes_eq n x
+
 /-- non-vacuity: a value in range, and the bytes it gets (-8193 ↦ 0x81 0x80 0x01) -/
-example : Binary.encodeLong (-8193) = WR.ok [0x81, 0x80, 0x01] := by decide +kernel
+example : encodeLong (-8193) = WR.ok [0x81, 0x80, 0x01] := by decide +kernel
+example : Spec.encodeLong (-8193) = [0x81, 0x80, 0x01] := by decide +kernel
